@@ -375,6 +375,7 @@ def step (s : DState) (line : String) : DState × String :=
       ({ s with fork := some (Level.fromSnapshot { price := s.lvl.price, vis := s.lvl.vis, hid := s.lvl.hid,
                                                    cnt := s.lvl.cnt, orders := os }, s.g) }, "fork ok")
     | none => (s, "fork inadmissible-listing")
+  | ["judge.C10err", _] => (s, "J C10 bad a-rebuild-of-the-level-from-its-own-form-failed")
   | ["judge.C10", pre, post] => (s, if pre == post then "J C10 ok" else "J C10 bad content-or-aggregates-changed")
   | ["judge.C10list", l] =>
     match parseList parseOrder l with
